@@ -13,6 +13,7 @@ class Stats:
         self.time = 0.0
         self.trivial = 0
         self.exported = []
+        self.cross = {'agree': 0, 'unknown': 0, 'disagree': 0, 'error': 0}
 
     def merge(self, other):
         for k in self.n:
@@ -22,7 +23,8 @@ class Stats:
 
     def as_dict(self):
         return {'unsat': self.n['unsat'], 'sat': self.n['sat'], 'unknown': self.n['unknown'],
-                'trivial_closed_by_simplifier': self.trivial, 'solver_time_s': round(self.time, 3)}
+                'trivial_closed_by_simplifier': self.trivial, 'solver_time_s': round(self.time, 3),
+                'cross': dict(self.cross)}
 
 
 STATS = Stats()
@@ -219,11 +221,39 @@ def prove(hyps, goal, timeout_ms=30000, slice_=True, extra_goal_terms=(), link=(
                     r, m = r2, m2
             _CACHE[key] = (r, m, st, neg)   # pin the terms: AST ids must not be reused
         if r == 'unsat':
+            if _cross_budget():
+                c = _cross_check(st + [neg])
+                if c == 'disagree':
+                    return 'unknown', 'solver disagreement: z3 unsat, cvc5 sat'
             return 'valid', None
         if r == 'sat' and full:
             return 'cex', m
         last = (r, m)
     return 'unknown', str(last[1]) if last else 'no stage'
+
+
+_CROSS_USED = [0]
+
+
+def _cross_budget():
+    """cross-solver sampling: VERIF_CROSS = number of z3 `unsat` verdicts per case that are re-decided by cvc5"""
+    import os
+    try:
+        n = int(os.environ.get('VERIF_CROSS', '0') or 0)
+    except ValueError:
+        n = 0
+    return _CROSS_USED[0] < n
+
+
+def _cross_check(formulas, timeout_ms=4000):
+    _CROSS_USED[0] += 1
+    try:
+        r = cvc5_check(to_smt2(formulas), timeout_ms)
+    except Exception:  # noqa
+        r = 'error'
+    k = {'unsat': 'agree', 'sat': 'disagree', 'unknown': 'unknown'}.get(r, 'error')
+    STATS.cross[k] += 1
+    return k
 
 
 def to_smt2(formulas):
@@ -239,6 +269,8 @@ def cvc5_check(smt2, timeout_ms=20000):
     slv = cvc5.Solver(tm) if tm is not None else cvc5.Solver()
     slv.setOption('tlimit-per', str(int(timeout_ms)))
     slv.setOption('nl-cov', 'true')
+    if '(set-logic' not in smt2:
+        smt2 = '(set-logic ALL)\n' + smt2
     parser = cvc5.InputParser(slv)
     parser.setStringInput(cvc5.InputLanguage.SMT_LIB_2_6, smt2, 'q')
     sm = parser.getSymbolManager()
